@@ -206,7 +206,7 @@ def upSucc (d : Design) (x : Nat) : List Nat :=
   | none => []
 
 def upFuel (d : Design) (init : List Nat) : Nat :=
-  init.length + (d.childTable.length + 1) * (d.childTable.length + 1) + 1
+  init.length + (d.childTable.length + 2) * (d.childTable.length + 2)
 
 /-- the instance part of a valid href (strip port/pin, cable/wire) -/
 def instPath (d : Design) (h : HRef) : HRef :=
@@ -416,13 +416,18 @@ def isPinRef (d : Design) (n : HRef) : Bool :=
   | some (.pin _ _) => true
   | _ => false
 
-/-- size of the elaborated design below the top (bounds the closure's work) -/
+/-- number of pin references on all wires of all definitions (bounds the degree of a wire) -/
+def totalPinRefs (d : Design) : Nat :=
+  (d.defs.flatMap (fun D => D.cables.flatMap (fun C => C.wires.flatMap (·.pins)))).length
+
+/-- fuel of the closure: (elaborated pins + wires) × (1 + maximal degree); proved sufficient in
+    LemmasFuel.lean -/
 def traceFuel (d : Design) : Nat :=
   match d.top with
   | some t =>
     let u := under d true [t.id] t
-    6 * (u.flatMap (pinsAt d)).length + 2 * (u.flatMap (wiresAt d)).length + 16
-  | none => 16
+    ((u.flatMap (pinsAt d)).length + (u.flatMap (wiresAt d)).length) * (totalPinRefs d + 3)
+  | none => 0
 
 /-- the work-list closure of `_get_hwires_from_hpins` with selection ALL, from pins and/or wires -/
 def traceAll (d : Design) (init : List HRef) : List HRef × Bool :=
